@@ -23,7 +23,7 @@ SYNTAXES = ['html', 'xml', 'xsl', 'jsx', 'vue', 'svelte']
 VOID = {'img', 'br', 'input', 'hr', 'meta', 'link'}
 NAMES = ['div', 'p', 'span', 'em', 'ul', 'li', 'section', 'b', 'x-y', 'table', 'tr', 'td', 'body', 'h1', 'a', 'img', 'br', 'input', 'label', 'select',
          'xsl:variable', 'xsl:with-param', 'html', 'i', 'strong', 'article', 'header', 'hr', 'ns:t', 'code', 'small', 'blockquote']
-TEXTS = ['t1', 'hello world', 'l1\nl2', 'x ${1:ph} y', '${2}', 'a\nbb\nccc', 'tail ', ' lead', 'a  b']
+TEXTS = ['t1', 'hello world', 'l1\nl2', 'x ${1:ph} y', '${2}', 'a\nbb\nccc', 'tail ', ' lead', 'a  b', 'c1\rc2', 'w1\r\nw2\r\nw3', 'm1\n\nm3']
 ATTRS = ['[d1=v1]', '[d2="v 2"]', '[select=q name="n m"]', '[k]', '[title=x]', "[e='s']"]
 
 
@@ -74,7 +74,7 @@ def gen_abbr_case(rng, d2=False, field_parents=False, flags=None):
     if d2:
         if not parents:
             return None
-        rng.choice(parents).text = rng.choice(['l1\nl2', 'a\nbb\nccc'])
+        rng.choice(parents).text = rng.choice(['l1\nl2', 'a\nbb\nccc', 'c1\rc2', 'w1\r\nw2'])
     return gen_abbr.write(tree, rng)[0]
 
 
